@@ -35,8 +35,14 @@ type evalReq struct {
 
 var evalProcessCh = make(chan evalReq, 100)
 
-// evalRoutines starts a set of concurrent evaluation routines.
+var evalOnce sync.Once
+
+// evalRoutines starts a set of concurrent evaluation routines (once per process).
 func evalRoutines() {
+	evalOnce.Do(startEvalRoutines)
+}
+
+func startEvalRoutines() {
 	for i := 0; i < runtime.NumCPU(); i++ {
 		go func() {
 			wid := verifID()
